@@ -23,6 +23,7 @@ var scenarioNames = []string{
 	"finished-connections",
 	"shutdown-stops-all",
 	"broker-unsubscribe-nil-or-twice",
+	"listener-close-vs-shutdown",
 }
 
 // MaxIdleTimeoutForQuicConnections while the harness runs; a connection whose peer is gone ends at
@@ -309,6 +310,52 @@ func scenarioMain(args []string) {
 		}
 		cancel()
 		count(name, true)
+	case "listener-close-vs-shutdown":
+		// Listener.Close at about the moment its node is shut down
+		st, ct := fastTLS()
+		for round := 0; round < 12; round++ {
+			if round > 0 {
+				var ok2 bool
+				m, names, nodes, ok2 = newMesh(2)
+				if !ok2 {
+					break
+				}
+				a, b = nodes[0], nodes[1]
+			}
+			lg.step("round %d: listener with a connection; Shutdown of its node and Listener.Close %d us apart", round, (round%4)*200)
+			li, err := b.Listen("svc", st)
+			Must(err)
+			go func() {
+				for {
+					if _, err := li.Accept(); err != nil {
+						return
+					}
+				}
+			}()
+			ctx, cancel := context.WithTimeout(context.Background(), 5*time.Second)
+			c, err := a.DialContext(ctx, "beta", "svc", ct)
+			cancel()
+			if err == nil {
+				_, _ = c.Write([]byte("x"))
+			}
+			go func() {
+				time.Sleep(time.Duration((round%4)*200) * time.Microsecond)
+				b.Shutdown()
+			}()
+			done := make(chan struct{})
+			go func() { _ = li.Close(); close(done) }()
+			select {
+			case <-done:
+			case <-time.After(5 * time.Second):
+				res.violate(fmt.Sprintf("Listener.Close() did not return within 5s when its node was shut down at the same moment (round %d)", round), "hang:listener-close:during-shutdown",
+					stacksOf("Listener).Close", "Transport).close", "baseServer).close", "Transport).listen"))
+				res.Done = true
+				res.write(resPath)
+				return
+			}
+			m.Shutdown()
+			count(fmt.Sprintf("%s|%d", name, round%4), true)
+		}
 	case "shutdown-stops-all":
 		st, ct := fastTLS()
 		pc, _ := a.ListenPacket("one")
